@@ -2,6 +2,6 @@ SPECIFICATION Spec
 CONSTANTS
     Docs = {0, 1, 2}
     MaxLookups = 3
-    Dev = {"NilOnlyEmptyCheck"}
+    Dev = {"RecycleSharedEmpty"}
 INVARIANTS CountRight IterRight NoCrash FirstRight SharedStaysEmpty
 CHECK_DEADLOCK FALSE
